@@ -67,5 +67,5 @@ func (f *Multiply) Call(s *slip.Scope, args slip.List, depth int) (product slip.
 			product = slip.Complex(complex128(product.(slip.Complex)) * complex128(ta))
 		}
 	}
-	return
+	return reduceNumber(product)
 }
